@@ -10,6 +10,7 @@ package c11
 import (
 	"fmt"
 	"sort"
+	"strconv"
 	"strings"
 	"sync"
 	"testing"
@@ -27,7 +28,11 @@ func allowNeither() bool { return stats.Known(kNilRes) }
 
 // checkOne runs one input through one transport and applies the full oracle.
 func checkOne(c *stats.Case, h *harness, tr transport, in []byte, info *docInfo) *expectation {
-	ex := refModel.doc(in)
+	md := refModel
+	if h.mdl != nil {
+		md = h.mdl
+	}
+	ex := md.doc(in)
 	if info != nil && info.tree != nil && ex.validJSON {
 		// harness self-check: the model's parser must read back exactly what the generator rendered
 		raw, _, _, _ := firstValue(in)
@@ -143,8 +148,9 @@ func sampleOf(in []byte, ex *expectation) func() any {
 }
 
 const structuredRule = "rapid grammar of request documents: each envelope member (jsonrpc, method, params, id) valid / missing / ill-typed, " +
-	"21 methods covering every binding shape, params good / omitted / too few / too many / unknown name / missing required / ill-typed value / " +
-	"validator failure / scalar / null / one explicit null argument (every parameter kind), by position or by name, ids of every JSON type, batches of 0-30 entries mixing calls, notifications, " +
+	"21 hand-written methods covering every binding shape plus 56 methods of the handler-signature matrix (with / without a leading context, " +
+	"1-4 parameters, every required / optional split, pairwise different parameter types out of 15), params good / omitted / too few / too many / unknown name / missing required / ill-typed value / " +
+	"validator failure / scalar / null / one explicit null argument (every parameter kind), by position (any prefix down to the required parameters) or by name (any subset of the optional ones), ids of every JSON type, batches of 0-30 entries mixing calls, notifications, " +
 	"invalid and non-object entries, nested arrays, duplicate and extra members, leading whitespace up to 5000 bytes, trailing bytes, " +
 	"byte-level damage; oracle = reference model of JSON-RPC 2.0 dispatch (multiset of (id, result | error code) + invocation log); " +
 	"non-trivial = input is valid JSON holding >= 1 well-formed request object; mixed-batch = >= 3 entries of >= 2 classes; " +
@@ -181,17 +187,17 @@ func TestPropTransports(t *testing.T) {
 func TestPropPositionalNamedAgree(t *testing.T) {
 	h := newHarness(4, false)
 	var withParams []*mspec
-	for _, sp := range methodSpecs {
+	for _, sp := range baseSpecs {
 		if len(sp.params) > 0 {
 			withParams = append(withParams, sp)
 		}
 	}
 	stats.Check(t, stats.Budget{Quick: 6000, Thorough: 30000},
-		"method with >= 1 parameter, a drawn prefix of argument values (all good, or one ill-typed), sent once as an array and once as an object with "+
+		"method with >= 1 parameter (hand-written shapes or the fixed part of the signature matrix), a drawn prefix of argument values (all good, or one ill-typed), sent once as an array and once as an object with "+
 			"shuffled members; responses and invocation logs must be equal and match the model; non-trivial = the call binds >= 2 arguments or leaves an optional tail absent",
 		func(rt *rapid.T, c *stats.Case) {
 			g := newGen(rt, c, false)
-			sp := withParams[g.uniform("method", len(withParams))]
+			sp := g.pickSpec(withParams, matrixSpecs)
 			vals := g.callArgs(sp)
 			bad := false
 			switch {
@@ -253,6 +259,7 @@ func TestPropPositionalNamedAgree(t *testing.T) {
 			}
 			c.Fp("%s", inPos)
 			c.Label("method:" + sp.shape)
+			labelOmittedTail(c, sp, len(vals))
 			if bad {
 				c.Label("args:one-bad-value")
 			} else {
@@ -265,6 +272,140 @@ func TestPropPositionalNamedAgree(t *testing.T) {
 				c.NonTrivial("multi-arg-or-absent-optional-tail")
 			}
 			c.Sample(func() any { return map[string]string{"positional": string(inPos), "named": string(inNamed), "class": exP.scen[0].entries[0].class} })
+		})
+}
+
+// TestPropSignatureMatrix: the handler signature space is drawn, not hand-picked. Per case a signature
+// ([context,] 0-4 parameters, a required prefix and an optional tail, every parameter of any of the 15 Go types of the
+// palette) is registered (once) on the running server, one good value is drawn per parameter, and EVERY way of
+// supplying them is sent: by position every prefix from all parameters down to the required ones, by name the
+// required parameters plus every subset of the optional ones (and "params" left out when nothing is required).
+// Specification (model_test.go matrixSpec/bind): a parameter that is not supplied is the zero value of its own type
+// and the handler runs exactly once with the bound values - so a positional prefix and the named request that names
+// the same parameters must behave identically. Every request is checked on its own against the model (one response
+// with its id, result xor error, one invocation with the supplied arguments, no crash) and all of them together as
+// one batch (array complete).
+func TestPropSignatureMatrix(t *testing.T) {
+	h := newHarness(4, false)
+	h.mdl = &model{known: stats.Known, extra: map[string]*mspec{}}
+	stats.Check(t, stats.Budget{Quick: 3000, Thorough: 20000},
+		"drawn handler signature: leading context yes/no, 0-4 parameters, 0..n of them required (prefix) and the rest optional, each of a type drawn "+
+			"from 15 (int, string, bool, *int, *string, []int, []string, validated struct, *struct, []struct, map[string]*struct, map[string]struct, "+
+			"struct with a required field, json.RawMessage, felt-like value type with its own UnmarshalJSON); handler built with reflect.MakeFunc and "+
+			"registered on the live server; one good value per parameter (1 in 6: one of them an explicit null); requests = every positional prefix "+
+			"down to the required parameters + every subset of optional names + params omitted/[]/{} when nothing is required, each sent alone and "+
+			"all of them as one shuffled batch over a drawn transport; oracle = reference model per request, equality of each positional prefix with "+
+			"its named twin, batch completeness; non-trivial = the signature has >= 1 parameter; distinct = signature + rendered batch",
+		func(rt *rapid.T, c *stats.Case) {
+			g := newGen(rt, c, false)
+			ctx := g.pick("ctx", 1, 1) == 1
+			n := g.uniform("nparams", maxMatrixParams+1)
+			req := g.uniform("nrequired", n+1)
+			types := make([]ptype, n)
+			for i := range types {
+				types[i] = matrixPalette[g.uniform("ptype", len(matrixPalette))]
+			}
+			sp := matrixSpec(ctx, types, req)
+			if known, ok := h.mdl.lookup(sp.name); ok {
+				sp = known
+			} else {
+				h.register(sp)
+			}
+			vals := make([]*jv, n)
+			for i := range vals {
+				vals[i] = g.goodValue(types[i])
+			}
+			if n > 0 && g.pick("null", 5, 1) == 1 {
+				vals[g.uniform("nullat", n)] = jnull()
+				c.Label("args:one-explicit-null")
+			}
+			tr := []transport{trReader, trReadWriter, trHTTP}[g.pick("transport", 3, 1, 1)]
+			st := g.style()
+
+			type variant struct {
+				params *jv // nil: member left out
+				bound  int // bit i set: parameter i supplied
+				form   string
+			}
+			var vs []variant
+			for k := n; k >= req; k-- {
+				vs = append(vs, variant{positional(vals[:k]), 1<<k - 1, "positional"})
+			}
+			nopt := n - req
+			for mask := 0; mask < 1<<nopt; mask++ {
+				drop := map[int]bool{}
+				for j := 0; j < nopt; j++ {
+					if mask&(1<<j) == 0 {
+						drop[req+j] = true
+					}
+				}
+				vs = append(vs, variant{g.named(sp, vals, drop), mask<<req | (1<<req - 1), "named"})
+			}
+			if req == 0 {
+				vs = append(vs, variant{nil, 0, "omitted"})
+			}
+			build := func(v variant, id *jv) *jv {
+				ms := []member{mem("jsonrpc", jstr("2.0")), mem("method", jstr(sp.name)), mem("id", id)}
+				if v.params != nil {
+					ms = append(ms, mem("params", v.params))
+				}
+				return jobj(g.shuffle(ms)...)
+			}
+			// each request alone, all with the same id: requests that bind the same parameters must give the same bytes (canonically)
+			byBound := map[int]string{}
+			byBoundIn := map[int][]byte{}
+			for _, v := range vs {
+				in := []byte(renderString(build(v, jint(1)), st))
+				ex := checkOne(c, h, tr, in, nil)
+				labelNulls(c, ex)
+				out, log := "", strings.Join(h.rec.snapshot(), "\n")
+				if len(h.lastOut) > 0 {
+					out = canonBytes(h.lastOut)
+				}
+				if ks := keysOf(h.lastOut); strings.Contains(ks, "|err=") {
+					out = ks // the error text may name the offending form; compare code and id only
+				}
+				got := out + "\n" + log
+				if prev, ok := byBound[v.bound]; ok && prev != got {
+					c.Violation("positional-vs-named", "[%s] same parameters supplied, different behaviour\n %q -> %q\n %q -> %q",
+						transportNames[tr], byBoundIn[v.bound], prev, in, got)
+				}
+				byBound[v.bound], byBoundIn[v.bound] = got, in
+				if v.form == "positional" {
+					labelOmittedTail(c, sp, len(v.params.a))
+				}
+				if v.form == "named" && len(v.params.o) < n {
+					c.Label("omitted-optional-subset(named)")
+				}
+			}
+			// all of them as one batch with distinct ids
+			batch := jarr()
+			for _, v := range vs {
+				batch.a = append(batch.a, build(v, g.freshID()))
+			}
+			batch.a = rapid.Permutation(batch.a).Draw(rt, "batchorder")
+			in := []byte(renderString(batch, st))
+			ex := checkOne(c, h, tr, in, nil)
+
+			c.Fp("%s|%d|%s", sp.name, tr, in)
+			c.Label("transport:" + transportNames[tr])
+			c.Label("method:" + sp.shape)
+			c.Labelf("matrix:params=%d,optional=%d", n, nopt)
+			c.Labelf("requests-per-signature:%s", bucket(len(vs)))
+			if ex.amb != "" {
+				c.Label("oracle:grammar-only(ambiguous input)")
+			} else {
+				c.Label("oracle:full")
+			}
+			if n >= 1 {
+				c.NonTrivial(">=1-parameter")
+			}
+			if nopt >= 1 {
+				c.NonTrivial("optional-parameters-omitted-every-way")
+			}
+			c.Sample(func() any {
+				return map[string]any{"signature": sp.name, "context": ctx, "transport": transportNames[tr], "batch": string(clip(in))}
+			})
 		})
 }
 
@@ -380,7 +521,36 @@ func TestRaceBatch(t *testing.T) {
 
 // ---------------------------------------------------------------- byte-level fuzzing
 
-var fuzzSeeds = []string{
+// matrixSeeds: for every context-taking method of the fixed signature matrix that has optional parameters, a request
+// supplying only the required ones (by position where possible) and one supplying all but the last by position.
+func matrixSeeds() []string {
+	var out []string
+	samples := map[ptype]string{tInt: "7", tStr: `"s"`, tBool: "true", tPtrInt: "3", tPtrStr: `"p"`, tInts: "[1,2]", tStrs: `["x","y"]`,
+		tStruct: `{"a":1,"b":"x"}`, tPtrStruct: `{"a":2}`, tStructs: `[{"a":3}]`, tMapPtr: `{"k":{"a":4}}`, tRaw: `{"r":[null]}`, tNoNull: "5",
+		tMapStruct: `{"k":{"a":6}}`, tReqStruct: `{"name":"n"}`}
+	for _, sp := range matrixSpecs {
+		n, req := len(sp.params), sp.required()
+		if !sp.ctx || req == n {
+			continue
+		}
+		for _, k := range []int{req, n - 1} {
+			var pos, named []string
+			for i := 0; i < k; i++ {
+				pos = append(pos, samples[sp.params[i].t])
+				named = append(named, strconv.Quote(sp.params[i].name)+":"+samples[sp.params[i].t])
+			}
+			out = append(out, fmt.Sprintf(`{"jsonrpc":"2.0","id":%d,"method":%q,"params":[%s]}`, k, sp.name, strings.Join(pos, ",")))
+			if k == req {
+				out = append(out, fmt.Sprintf(`{"jsonrpc":"2.0","id":%d,"method":%q,"params":{%s}}`, k, sp.name, strings.Join(named, ",")))
+			}
+		}
+	}
+	return out
+}
+
+var fuzzSeeds = append(baseFuzzSeeds, matrixSeeds()...)
+
+var baseFuzzSeeds = []string{
 	// literals of jsonrpc/server_test.go
 	`{"jsonrpc" : "1.0", "id" : 1}`,
 	`{"jsonrpc" : "1.0", "id" : null}`,
